@@ -365,7 +365,6 @@ static std::string join(const Toks& t, size_t a, size_t b) { std::string s; for 
 static std::string join(const Toks& t) { return join(t, 0, t.size()); }
 
 // ------------------------------------------------------------- diagnosis
-static const char* shape_name(const std::vector<Node>& n, int i, const Val& v) { return n[i].k == 'n' ? "num" : v.shape == SC ? "scalar" : "set"; }
 static bool all_undef(const Val& v) { for (auto& x : v.e) if (x) return false; return true; }
 static char target_for(char target, const Val& v) { return v.shape == WS ? 'W' : v.shape == GS ? 'G' : target; }
 
@@ -381,7 +380,7 @@ static int sub_agrees(char tg, const Toks& sub, const std::vector<OD>* ex, bool 
     return res;
 }
 
-static std::string diagnose(char target, const Toks& toks, const std::vector<Node>& n, int root, std::string& witness, char& wtarget) {
+static std::string diagnose(char target, const Toks& toks, const std::vector<Node>& n, int root, std::string& witness, char& wtarget, std::string& wdesc) {
     // smallest disagreeing subtree (nodes are created children-first, so index order is a post-order)
     int T = root;
     for (int i = 0; i < int(n.size()); ++i) {
@@ -402,6 +401,7 @@ static std::string diagnose(char target, const Toks& toks, const std::vector<Nod
     wtarget = tg;
     const std::vector<OD> ex = expected(tg, v);
     Real r = eval_real(tg, sub);
+    wdesc = "real = " + (r.threw ? "throws (" + r.what.substr(0, 160) + ")" : !r.shape_err.empty() ? r.shape_err : show(r.e)) + ", statement = " + show(ex);
     const std::string thr = r.threw ? ":throws" : (!r.shape_err.empty() ? ":shape" : ":value");
     if (x.k == 'n') return "C17:operand:number" + thr;
     if (x.k == 'v') return "C17:operand:" + x.s + (x.hassel ? (x.sel.find('*') != std::string::npos ? ":pattern" : ":name") : "") + thr;
@@ -442,44 +442,52 @@ static std::string diagnose(char target, const Toks& toks, const std::vector<Nod
     const size_t nel = shape_size(v.shape);
     std::vector<size_t> idx;
     if (r.threw || !r.shape_err.empty() || v.shape == SC) for (size_t i = 0; i < nel; ++i) idx.push_back(i); else idx = bad;
-    const std::string shapes = std::string(shape_name(n, x.l, a)) + "," + shape_name(n, x.r, b);
     const int rk = op_rank(x.s);
     const bool undef_scalar = (a.shape == SC && !a.e[0]) || (b.shape == SC && !b.e[0]);
     const bool any_scalar = (a.shape == SC && n[x.l].k != 'n') || (b.shape == SC && n[x.r].k != 'n');
     // a scalar ^ set below T that agreed stand-alone only because all elements coincide still has the wrong (scalar) shape
+    // (fallback attribution) a ^ below T whose operands have different sizes in the implementation (literals are
+    // full sets for WUX/GUX, FOPR / "WOPR P1" / reductions have size 1) yields a wrongly shaped result even
+    // when it agreed stand-alone because all elements coincide
+    std::function<bool(int)> impl_full = [&](int c) -> bool {
+        const Node& y = n[c];
+        if (y.k == 'n') return true;
+        if (y.k == 'v') { try { return ref_eval(n, c).shape != SC; } catch (const Unspec&) { return false; } }
+        if (y.k == '-') return impl_full(y.l);
+        if (y.k == 'f') return std::find(FUNCS.begin(), FUNCS.begin() + 10, y.s) == FUNCS.begin() + 10 && impl_full(y.l);
+        return impl_full(y.l) || impl_full(y.r);
+    };
     auto unbroadcast_pow_below = [&]() {
+        if (tg == 'F' || !(r.threw || !r.shape_err.empty())) return false;   // size-1 world / only for size-mismatch symptoms
         std::vector<int> st{x.l, x.r};
         while (!st.empty()) {
             int c = st.back(); st.pop_back();
             if (c < 0) continue;
-            if (n[c].k == 'b' && n[c].s == "^") {
-                try { Val pl = ref_eval(n, n[c].l), pr = ref_eval(n, n[c].r);
-                      if ((pl.shape == SC && n[n[c].l].k != 'n') != (pr.shape == SC && n[n[c].r].k != 'n') || (pl.shape == SC) != (pr.shape == SC)) return true; } catch (const Unspec&) {}
-            }
+            if (n[c].k == 'b' && n[c].s == "^" && impl_full(n[c].l) != impl_full(n[c].r)) return true;
             st.push_back(n[c].l); st.push_back(n[c].r);
         }
         return false;
     };
-    if (rk == 0) { if (any_scalar) return "C17:uop:scalar-not-broadcast"; if (unbroadcast_pow_below()) return "C17:pow:scalar-not-broadcast"; return "C17:uop:" + shapes + thr; }
+    if (rk == 0) { if (any_scalar) return "C17:uop:scalar-not-broadcast"; if (unbroadcast_pow_below()) return "C17:pow:scalar-not-broadcast"; return "C17:uop:" + x.s + thr; }
     if (rk == 4) {
         if (!r.threw && r.shape_err.empty()) {
             bool ue = false; for (size_t i : idx) { OD l = el(a, i), rr = el(b, i); if (l && !rr && i < r.e.size() && r.e[i]) ue = true; }
             if (ue) return "C17:pow:undefined-exponent-not-propagated";
         }
-        return any_scalar ? "C17:pow:scalar-not-broadcast" : "C17:pow:" + shapes + thr;
+        return (any_scalar && tg != 'F') ? "C17:pow:scalar-not-broadcast" : "C17:pow" + thr;
     }
     if (undef_scalar && r.threw) return "C17:undef-scalar-operand:throws";
     if (rk == 1) {
         bool zero = false, neg = false;
         // "zero": the relative difference (l - r) / l is not finite (l == 0 or so tiny that the quotient overflows)
-        for (size_t i : idx) { OD l = el(a, i), rr = el(b, i); if (!l || !rr) continue; if (*l != *rr && !std::isfinite((*l - *rr) / *l)) zero = true; if (*l < 0) neg = true; }
+        for (size_t i : idx) { OD l = el(a, i), rr = el(b, i); if (!l || !rr) continue; if (*l != *rr && !std::isfinite((*l - *rr) / *l)) zero = true; if (*l < 0 && *l != *rr) neg = true; }
         if (zero && (r.threw || !neg)) return "C17:cmp:zero-lhs";
         if (neg) return "C17:cmp:neg-lhs:" + x.s;
         if (unbroadcast_pow_below()) return "C17:pow:scalar-not-broadcast";
-        return "C17:cmp:" + x.s + ":" + shapes + thr;
+        return "C17:cmp:" + x.s + thr;
     }
     if (unbroadcast_pow_below()) return "C17:pow:scalar-not-broadcast";
-    return "C17:arith:" + shapes + thr;
+    return "C17:arith:" + x.s + thr;
 }
 
 // ------------------------------------------------------------- one case
@@ -509,19 +517,22 @@ static int do_case(char target, const Toks& toks, const char* regime) {
     }
     const std::vector<OD> ex = expected(target, v);
     {
-        std::string h = show(r.e) + (r.threw ? "T" : "") + "|";
+        std::string h;
+        if (v.random) { for (auto& x : r.e) h += x ? 'd' : 'u'; }     // values are random: observe definedness only
+        else h = show(r.e);
+        h += r.threw ? "T|" : "|";
         for (auto& nd : P.n) { h += nd.k; if (nd.k == 'b' || nd.k == 'f') h += nd.s; if (nd.paren) h += 'p'; }
         R->observe(h);
     }
     if (R->case_counter % 9973 == 1) R->sample_str(cs + "  =>  " + show(r.e) + (v.random ? "  (random: definedness only)" : ""));
     if (agree(r, ex, v.random)) return 0;
-    std::string witness; char wtarget = target;
-    std::string key = diagnose(target, toks, P.n, root, witness, wtarget);
-    std::string what = "UDQ DEFINE " + std::string(1, target) + "UX " + join(toks) + " : real = " + (r.threw ? "throws (" + r.what.substr(0, 160) + ")" : !r.shape_err.empty() ? r.shape_err : show(r.e))
-        + ", statement = " + show(ex) + "; smallest disagreeing sub-expression: " + witness;
+    std::string witness, wdesc; char wtarget = target;
+    std::string key = diagnose(target, toks, P.n, root, witness, wtarget, wdesc);
+    // the stand-alone smallest disagreeing sub-expression is itself the (smaller) reproducer
+    std::string what = "UDQ DEFINE " + std::string(1, wtarget) + "UX " + witness + " : " + wdesc;
+    if (witness != join(toks)) what += "; seen inside " + std::string(1, target) + "UX " + join(toks) + " : real = " + (r.threw ? "throws" : !r.shape_err.empty() ? r.shape_err : show(r.e)) + ", statement = " + show(ex);
     R->count("viol:" + key);
     auto& best = g_viol[key];
-    // the stand-alone sub-expression is itself a (smaller) reproducer
     const std::string wcs = std::string(1, wtarget) + " : " + witness;
     if (best.cs.empty() || wcs.size() < best.cs.size() || (wcs.size() == best.cs.size() && wcs < best.cs)) best = {wcs, what, cs, toks.size()};
     return 0;
@@ -598,7 +609,7 @@ int main(int argc, char** argv) {
         + "and every registered one-argument function (24) applied to one operand or to the parenthesised group; "
         + "operands WUX: {2, 3, 0.5, FOPR, WOPR, WOPR 'P*', WOPR P1, WWPR}, GUX: {2, 3, 0.5, FOPR, GOPR, GOPR G1, GWPR}, FUX: {2, 3, 0.5, FOPR, WOPR P1, GOPR G1} (+ sets inside reductions), "
         + "plus an undefined scalar (WOPR P2 / GOPR G2) and an all-undefined set (WOPR 'X*') for <= 1 operator; "
-        + (run.quick() ? "bounds: <= 2 operators over the full alphabets; 3 operators over {2,3,0.5} (FUX) and {0.5,WOPR,WWPR} (WUX); functions with <= 1 operator (full) and 2 operators over {0.5,WOPR,WWPR}; "
+        + (run.quick() ? "bounds: <= 2 operators over the full alphabets; 3 operators over {2,3,0.5} (FUX) and {0.5,WOPR,WWPR} (WUX); functions with <= 1 operator (full) and 2 operators over {0.5,WOPR}; unary minus for WUX/FUX only; "
                        : "bounds: <= 2 operators over the full alphabets; 3 operators over {2,0.5,FOPR,WOPR,WWPR} (WUX), {0.5,FOPR,GOPR,GWPR} (GUX), {2,3,0.5,FOPR,WOPR P1} (FUX); 4 operators over {2,3,0.5} without and {3,0.5} with parentheses; functions with <= 2 operators; ")
         + "oracle: precedence-climbing reference parser + element-wise evaluator written from the statement; distinct = distinct (result vector, tree shape)";
     run.assumptions = {
@@ -622,6 +633,7 @@ int main(int argc, char** argv) {
     const std::vector<Toks> Fbase{{"2"}, {"3"}, {"0.5"}, {"FOPR"}, {"WOPR", "P1"}, {"GOPR", "G1"}};
     const std::vector<Toks> Num3{{"2"}, {"3"}, {"0.5"}};
     const std::vector<Toks> W3{{"0.5"}, {"WOPR"}, {"WWPR"}};
+    const std::vector<Toks> W2{{"0.5"}, {"WOPR"}};
     const std::vector<Toks> W6{{"2"}, {"0.5"}, {"FOPR"}, {"WOPR"}, {"WOPR", "P1"}, {"WWPR"}};
     const std::vector<Toks> W5{{"2"}, {"0.5"}, {"FOPR"}, {"WOPR"}, {"WWPR"}};
     const std::vector<Toks> G4{{"0.5"}, {"FOPR"}, {"GOPR"}, {"GWPR"}};
@@ -635,7 +647,7 @@ int main(int argc, char** argv) {
     // name, target, operand alphabet, kmin, kmax (operators), parenthesis placements, unary minus variants, function mode, alphabet inside reductions
     std::vector<Regime> regs;
     regs.push_back({"chain:W", 'W', Wbase, 0, 2, true, true, 0, {}});
-    regs.push_back({"chain:G", 'G', Gbase, 0, 2, true, true, 0, {}});
+    regs.push_back({"chain:G", 'G', Gbase, 0, 2, true, run.thorough(), 0, {}});
     regs.push_back({"chain:F", 'F', Fbase, 0, 2, true, true, 0, {}});
     regs.push_back({"chain-ext:W", 'W', Wext, 0, 1, true, true, 0, {}});      // + undefined scalar, all-undefined set
     regs.push_back({"chain-ext:G", 'G', Gext, 0, 1, true, true, 0, {}});
@@ -646,7 +658,7 @@ int main(int argc, char** argv) {
     if (run.quick()) {
         regs.push_back({"deep3:F", 'F', Num3, 3, 3, true, false, 0, {}});
         regs.push_back({"deep3:W", 'W', W3, 3, 3, true, false, 0, {}});
-        regs.push_back({"func2:W", 'W', W3, 2, 2, true, false, 1, {}});
+        regs.push_back({"func2:W", 'W', W2, 2, 2, true, false, 1, {}});
     } else {
         regs.push_back({"deep3:W", 'W', W5, 3, 3, true, false, 0, {}});
         regs.push_back({"deep3:G", 'G', G4, 3, 3, true, false, 0, {}});
